@@ -10,7 +10,10 @@ META = dict(
          "ReceivedTx, MempoolAcceptedTx, the insertion rules of MempoolRejectedTx, BlockConnected / ActiveTipChange) together with the glue "
          "net_processing.cpp puts around it and the verdict classes of mempool validation, over a universe of one genuine segwit transaction G "
          "(txid T, wtxid W) and its malleated copies with the same txid - invalid witness, oversized non-standard witness, stripped witness - "
-         "optionally all spending an unconfirmed parent so that every copy is an orphan first; two wtxid-relay peers (one preferred). TLC checks on "
+         "optionally all spending an unconfirmed parent so that every copy is an orphan first; two wtxid-relay peers (one preferred). A third "
+         "universe (TxDownloadOrphan.tla) gives G TWO unconfirmed parents accepted at separate steps, copies with a lower and a higher wtxid than G "
+         "(ground in the harness), the per-peer orphan work sets with their reconsideration marks as explicit state and ProcessOrphanTx turns as "
+         "separate, delayable actions (invariant: a valid G waiting in the orphanage is always marked for reconsideration). TLC checks on "
          "every reachable state / transition of the bounded model: while G is valid and absent from the pool neither W nor T is in any filter, "
          "AlreadyHaveTx(W) is false and G does not sit in the orphanage; an inv for W is taken up; the peer the tracker prefers is asked for W; "
          "nothing but that peer's own answer (G, notfound, timeout) ends its announcement of W; G, when it arrives, is validated and accepted. "
@@ -28,7 +31,7 @@ META = dict(
     technique="TLA+ spec TxDownload + TLC invariants and action properties; exhaustive graph replay and simulation replay on the real TxDownloadManagerImpl",
 )
 
-ACTIONS = ("inv", "poll", "notfound", "tx", "block")
+ACTIONS = ("inv", "poll", "notfound", "tx", "block", "turn")
 
 
 def property_difference(step, diff, prev):
@@ -41,15 +44,20 @@ def property_difference(step, diff, prev):
             return "AlreadyHaveTx(W) is true while the genuine transaction is wanted"
         if key == "state.rejT" and obs == "yes" and exp["rejT"] == "no":
             return "the txid T is in the reject filter while the genuine transaction is wanted"
-        if key in ("state.rej", "state.recon", "state.conf") and exp["rejT"] != "na":      # ("na": G is in the pool or confirmed)
+        if key in ("state.rej", "state.recon", "state.conf") and exp.get("rejT", "no") != "na":      # ("na": G is in the pool or confirmed)
             extra = set(obs) - set(exp[key[6:]])
             if extra & {"W", "T"}:
                 return "%s holds %s although the model's does not" % (key[6:], sorted(extra & {"W", "T"}))
         if key == "state.pool" and "G" in exp["pool"] and "G" not in obs:
             return "the genuine transaction is not in the mempool"
+        if key == "state.hw":
+            # third universe: the genuine orphan, both parents in the pool, should be marked for reconsideration in its announcer's work set
+            for pk, pn in (("p1", 0), ("p2", 1)):
+                if exp["hw"][pk] and not obs[pk] and "G" in exp["hid"]["work"][pn] and "G" not in exp["pool"] and {"P1", "P2"} <= set(exp["pool"]):
+                    return "the genuine transaction sits in the orphanage with both parents accepted and is not queued for reconsideration"
         if key == "state.ahT" and obs == "yes" and exp["ahT"] == "no":
             return "AlreadyHaveTx(txid T) is true because of a copy, while the genuine transaction is wanted"
-        if key == "state.live.W" and exp["live"]["W"] and not obs and not (a[0] == "poll" and "req" in prev["hid"]["trk"]["W"]):
+        if key == "state.live.W" and "live" in exp and exp["live"]["W"] and not obs and not (a[0] == "poll" and "req" in prev["hid"]["trk"]["W"]):
             # (a request that times out differently from the model's 60 s is the peer's own timeout, not censorship)
             return "no peer is left to ask for W"
         if key == "result.ask" and "W" in r["ask"] and "W" not in obs:
@@ -64,7 +72,7 @@ def property_difference(step, diff, prev):
 
 
 def run_set(ctx, binary, tests, what, haspar, stats):
-    args = [1 if haspar else 0, "all"]
+    args = [int(haspar), "all"]
     res = ctx.run_harness(binary, "replay", tests, args=args, name=what, timeout=9000)
     ctx.evaluations += int(res["summary"]["tests"]); ctx.traces += int(res["summary"]["tests"])
     ctx.extra["replayed_steps"] = ctx.extra.get("replayed_steps", 0) + int(res["summary"]["steps"])
@@ -108,9 +116,11 @@ def interesting(t):
     seen_copy = False
     for s in t["steps"]:
         a = s["a"]
-        if a[0] in ("tx", "inv") and str(a[2]) in ("Vbad", "Vbig", "Vstrip", "Wbad", "Wbig", "T"):
+        if a[0] in ("tx", "inv") and str(a[2]) in ("Vbad", "Vbig", "Vstrip", "Wbad", "Wbig", "T", "Vlo", "Vhi"):
             seen_copy = True
         if a[0] == "tx" and a[2] == "G" and seen_copy:
+            return True
+        if a[0] == "turn" and seen_copy:
             return True
     return False
 
@@ -123,17 +133,19 @@ def run(ctx):
     if not quick and not os.environ.get("C64_SKIP_MC"):
         for mc in ("MC_U1.cfg", "MC_U2.cfg"):
             ctx.tlc("TxDownload", "TxDownload", mc, timeout=2400)
+        ctx.tlc("TxDownload", "TxDownloadOrphan", "MC_U3.cfg", timeout=2400)
     # ---- all TLC runs at once (one worker each; the machine is shared), then the replays
-    e1 = (("E1_U1.cfg", False), ("E1_U2.cfg", True)) if quick else (("E1_U1_deep.cfg", False), ("E1_U2_deep.cfg", True))
-    sims = (("Sim_U1.cfg", False, 25 if quick else 600), ("Sim_U2.cfg", True, 35 if quick else 900))
+    e1 = (("E1_U1.cfg", 0, "TxDownload"), ("E1_U2.cfg", 1, "TxDownload"), ("E1_U3.cfg", 2, "TxDownloadOrphan")) if quick else \
+         (("E1_U1_deep.cfg", 0, "TxDownload"), ("E1_U2_deep.cfg", 1, "TxDownload"), ("E1_U3_deep.cfg", 2, "TxDownloadOrphan"))
+    sims = (("Sim_U1.cfg", 0, 25 if quick else 600), ("Sim_U2.cfg", 1, 35 if quick else 900))
     jobs = {}
     with concurrent.futures.ThreadPoolExecutor(max_workers=4) as ex:
-        for cfg, haspar in e1:
-            jobs[cfg] = ex.submit(ctx.tlc, "TxDownload", "TxDownload", cfg, name=cfg[:-4], timeout=2400, workers=1 if quick else 4)
+        for cfg, haspar, module in e1:
+            jobs[cfg] = ex.submit(ctx.tlc, "TxDownload", module, cfg, name=cfg[:-4], timeout=2400, workers=1 if quick else 4)
         for cfg, haspar, num in sims:
             jobs[cfg] = ex.submit(ctx.tlc, "TxDownload", "TxDownload", cfg, simulate=(num, 12), name=cfg[:-4], timeout=2400)
     # ---- E1: every transition of the bounded graphs
-    for cfg, haspar in e1:
+    for cfg, haspar, module in e1:
         r = jobs[cfg].result()
         g = vflib.Graph(vflib.load_emitted(r.emit_path))
         tests = list(g.edge_tests())
